@@ -18,6 +18,7 @@ fn main() {
     let mut tier = std::env::var("VERIF_TIER").unwrap_or_else(|_| "quick".to_string());
     let mut replay: Option<String> = None;
     let mut worker: Option<(String, u64, u64)> = None;
+    let mut describe = false;
     let mut i = 2;
     while i < args.len() {
         match args[i].as_str() {
@@ -28,6 +29,10 @@ fn main() {
             "--replay" => {
                 replay = Some(args[i + 1].clone());
                 i += 2;
+            }
+            "--describe" => {
+                describe = true;
+                i += 1;
             }
             "--worker" => {
                 worker = Some((args[i + 1].clone(), args[i + 2].parse().unwrap(), args[i + 3].parse().unwrap()));
@@ -50,6 +55,7 @@ fn main() {
     };
     let mut run = Run::new(&id, &tier, level);
     run.worker = worker;
+    run.describe_mode = describe;
     run.base_args = vec![id.clone(), "--tier".to_string(), tier.clone()];
     if let Some(path) = replay {
         let text = std::fs::read_to_string(&path).expect("cannot read replay file");
@@ -77,6 +83,7 @@ fn main() {
             std::process::exit(2);
         }
         "C17" => props::c17::run(run),
+        "C18" => props::c18::run(run),
         "C20" => props::c20::run(run),
         _ => {
             eprintln!("no engine for property {id}");
